@@ -71,6 +71,10 @@ func (d *sdriver) SendProbe(ttl uint8) error {
 		if d.sc.Extra == "dup" && d.sc.K == k {
 			d.pend = append(d.pend, resp{now + lat + int64(eDelay) + 1e6, ttl, a == 2})
 		}
+		if d.sc.Extra == "then-dest" && d.sc.K == k {
+			// the same TTL is answered a second time, by the destination (route change, ECMP): a destination answer for TTL k
+			d.pend = append(d.pend, resp{now + lat + int64(eDelay) + 1e6, ttl, true})
+		}
 	}
 	return nil
 }
@@ -145,7 +149,10 @@ func checkE(sc *EScn, x *vsched.Exec, res []*common.ProbeResponse, err error, d 
 	}
 	lowestDest := -1
 	for k, a := range sc.Ans {
-		if a == 2 {
+		// "then-dest": TTL k is answered by a router first and by the destination later; the serial engine can only see
+		// the second answer while it waits for a later TTL
+		thenDest := sc.Extra == "then-dest" && sc.K == k && (sc.Engine == "parallel" || k < len(sc.Ans)-1)
+		if a == 2 || thenDest {
 			lowestDest = sc.First + k
 			break
 		}
@@ -262,6 +269,17 @@ func eItems(tier string) []EScn {
 					out = append(out, EScn{Engine: sp.engine, First: sp.first, Last: sp.last, Ans: ans, Extra: "dup", K: k, Bound: bound})
 					if k < n-1 {
 						out = append(out, EScn{Engine: sp.engine, First: sp.first, Last: sp.last, Ans: ans, Extra: "late", K: k, Bound: bound})
+					}
+					laterSilent := true
+					for j := k + 1; j < n; j++ {
+						if ans[j] != 0 {
+							laterSilent = false
+						}
+					}
+					// (serial engine: the second answer is only read while a later TTL is being waited for, and only if that
+					// TTL's own reply does not end the wait first - so there the later TTLs are silent)
+					if ans[k] == 1 && (sp.engine == "parallel" || (laterSilent && k < n-1)) {
+						out = append(out, EScn{Engine: sp.engine, First: sp.first, Last: sp.last, Ans: ans, Extra: "then-dest", K: k, Bound: bound})
 					}
 				}
 			}
@@ -403,7 +421,7 @@ func run(tier string, idx int, r *core.ScnResult) {
 			}
 			k, detail := checkE(sc, x, res, err, d)
 			if k != "" {
-				cls := fmt.Sprintf("engine-%s/%s", sc.Engine, map[string]string{"": "plain", "dup": "duplicate", "late": "late-reply"}[sc.Extra])
+				cls := fmt.Sprintf("engine-%s/%s", sc.Engine, map[string]string{"": "plain", "dup": "duplicate", "late": "late-reply", "then-dest": "router-then-destination"}[sc.Extra])
 				r.Fail(core.Failure{Key: "C03 " + cls + "/" + k, What: detail, Scenario: core.JSON(map[string]any{"engine_scn": sc}), Choices: x.Choices(), Bound: cost})
 				return false
 			}
